@@ -138,7 +138,14 @@ struct IoFault : Profile {
                 ctx.st.ops_skipped++;
                 continue;
             }
-            if (mx.run(p.ops[i]))
+            // known finding C16-gr-special-error-paths: raster images with a special layout, an attribute or a palette
+            // (grnew2) are created as plain images here (guard unguard_gr2)
+            Op o = p.ops[i];
+            if (o.kind == "grnew2" && p.knob("unguard_gr2", 0) == 0) {
+                o.kind = "grnew";
+                o.a.resize(5);
+            }
+            if (mx.run(o))
                 ctx.st.ops_done++;
             else
                 ctx.st.ops_skipped++;
